@@ -30,7 +30,9 @@ ASSUMPTIONS = [
     "(SQLite) are seen through sqlite3.connect's database argument and through the before/after snapshot of the sandbox",
     "hostile values are restricted to targets inside the sandbox root (absolute paths only below it, at most as many '..' "
     "as the storage directory is deep): a value whose lexical target would leave the sandbox is skipped, not executed",
-    "the storage directory holds no symbolic links; 'inside' is decided on os.path.realpath",
+    "the storage directory holds no symbolic links; 'inside' is decided on os.path.realpath; an open-for-write ATTEMPT on a "
+    "path that resolves outside counts even when the OS then refuses it (ENOENT for a missing intermediate directory, "
+    "EISDIR): its safety would depend on what happens to exist in the directory",
     "storescp is configured with an output directory (with output_directory=None it writes to the current directory by design)",
     "an exception escaping a handler (e.g. qrscp: os.path.join on the MultiValue that 'a\\\\b' decodes to) is counted "
     "(class raised:*), not reported: C30 is about writes only",
@@ -211,6 +213,8 @@ def check_store(ctx, case):
             return
         # ---- sandbox tree
         os.makedirs(os.path.join(store, "sub"))
+        for d in ("CT.sub", "UN.sub", "MR.sub"):  # so that '<prefix>.' + 'sub/../..' is a traversable path as well
+            os.mkdir(os.path.join(store, d))
         for d in ("outer", os.path.join(*DEPTH[:-1], "sibling"), os.path.join(*DEPTH[:-1], "store-evil")):
             os.makedirs(os.path.join(root, d))
         for f in ("victim", os.path.join("outer", "victim"), os.path.join(*DEPTH[:-1], "victim")):
@@ -224,7 +228,8 @@ def check_store(ctx, case):
         store_arg = os.path.join(*DEPTH) if rel else store
         db_url = "sqlite:///" + (os.path.join(*DEPTH[:-1], "db.sqlite") if rel else db_file)
         if case["storage"] == "missing":
-            os.rmdir(os.path.join(store, "sub"))
+            for d in ("sub", "CT.sub", "UN.sub", "MR.sub"):
+                os.rmdir(os.path.join(store, d))
             if case.get("pre"):
                 os.remove(os.path.join(store, "victim"))
             os.rmdir(store)
@@ -279,6 +284,8 @@ def check_store(ctx, case):
         wrote_inside = any(fsaudit.inside(os.path.join(root, p), store) for p, _ in changes)
         classes.append(outcome)
         classes.append("escaped" if (bad_audit or bad_snap) else ("wrote-inside" if wrote_inside else "wrote-nothing"))
+        if bad_snap:
+            classes.append("escaped-effective(object outside created/changed)")
         if any(w.path is None for w in writes):
             classes.append("unresolvable-audit-event")
         ctx.note(case, nontrivial=bool(hostile), classes=classes)
@@ -286,8 +293,13 @@ def check_store(ctx, case):
         shown = {k: (v if len(v) < 120 else v[:60] + f"...<{len(v)} chars>") for k, v in (("uid", uid), ("cls", cls))}
         ctxt = f"{app}.handle_store via {route}, storage_dir={store_arg!r} (cwd={root}), SOPInstanceUID={shown['uid']!r}, SOPClassUID={shown['cls']!r}, {outcome}"
         seen = set()
+        # the instance UID (as given, or as pydicom hands it over after stripping padding) joined unchanged onto the directory
+        raw_join = {os.path.join(root, os.path.join(store_arg, u)) for u in (uid, uid.rstrip("\x00"), uid.rstrip("\x00 "), uid.strip("\x00 "))}
         for w in bad_audit:
-            key = f"{app}.handle_store:path-escape" if w.event == "open" else f"{app}.handle_store:{w.event}-outside"
+            if w.event == "open":
+                key = f"{app}.handle_store:path-escape" if w.path in raw_join else f"{app}.handle_store:path-escape-derived-name"
+            else:
+                key = f"{app}.handle_store:{w.event}-outside"
             if key in seen:
                 continue
             seen.add(key)
